@@ -315,14 +315,17 @@ def _read_alignment(world, lib, read):
         changed = False
         for pos, ref, alt, k in vars_here:
             vend = pos + len(ref)
-            if vend <= st or pos >= en:
+            if vend + 2 <= st or pos - 2 >= en:
                 continue
             if st <= pos and vend + 1 <= en:
                 continue
+            # keep two clear bases between the read and a variant it does not carry: whatshap left-normalises indels
+            # (an insertion after anchor p is "at p+1"), and a read that starts or ends exactly there looks as if it
+            # covered the variant and showed the reference allele
             if pos - st < en - vend:
-                st = vend
+                st = vend + 2
             else:
-                en = pos
+                en = pos - 2
             changed = True
     if en - st < 10:
         return None
